@@ -37,6 +37,7 @@ var (
 	snap     = map[key]entry{}
 	keys     []key
 	loadErr  error
+	unusable []string // what an unusable ipfix.elements did to the table
 )
 
 func envOr(k, d string) string {
@@ -58,6 +59,40 @@ func setup() {
 	}
 	for k, v := range ipfix.InfoModel {
 		absent[k] = v
+	}
+	// path 1b: the file is THERE but cannot be used (a directory in its place - a bind mount of a missing file -,
+	// something that is not YAML, YAML of another shape, the shipped file cut short into invalid YAML): the load
+	// fails and the table must still be the built-in one
+	shipped, _ := os.ReadFile(filepath.Join(repo, "scripts", "ipfix.elements"))
+	cut := append(append([]byte{}, shipped[:len(shipped)/3]...), []byte("\n\t:::\n  - [")...)
+	for _, v := range []struct {
+		name string
+		make func(dir string)
+	}{
+		{"a directory in its place", func(dir string) { os.Mkdir(filepath.Join(dir, "ipfix.elements"), 0755) }},
+		{"not YAML", func(dir string) { os.WriteFile(filepath.Join(dir, "ipfix.elements"), []byte(":\n\t- [\x00"), 0644) }},
+		{"YAML of another shape", func(dir string) {
+			os.WriteFile(filepath.Join(dir, "ipfix.elements"), []byte("just: [a, list]\n"), 0644)
+		}},
+		{"the shipped file cut short into invalid YAML", func(dir string) { os.WriteFile(filepath.Join(dir, "ipfix.elements"), cut, 0644) }},
+	} {
+		dir, _ := os.MkdirTemp("", "c20u")
+		v.make(dir)
+		err := ipfix.LoadExtElements(dir)
+		os.RemoveAll(dir)
+		diff := 0
+		for k, b := range builtin {
+			if ipfix.InfoModel[k] != b {
+				diff++
+			}
+		}
+		if diff > 0 || len(ipfix.InfoModel) != len(builtin) {
+			unusable = append(unusable, fmt.Sprintf("%s (load error: %v): %d of %d built-in entries changed or gone, %d entries in the table", v.name, err, diff, len(builtin), len(ipfix.InfoModel)))
+			ipfix.InfoModel = map[ipfix.ElementKey]ipfix.InfoElementEntry{}
+			for k, b := range builtin {
+				ipfix.InfoModel[k] = b
+			}
+		}
 	}
 	// path 2: shipped file
 	if err := ipfix.LoadExtElements(filepath.Join(repo, "scripts")); err != nil {
@@ -142,6 +177,11 @@ func entriesSpace(tier string) mck.Space {
 		ek := ipfix.ElementKey{EnterpriseNo: k.pen, ElementID: k.id}
 		if loadErr != nil && idx == 0 {
 			c.Violation("model:load-error", loadErr.Error(), nil)
+		}
+		if idx == 0 {
+			for _, u := range unusable {
+				c.Violation("model:unusable-file-changes-table", "ipfix.elements present but unusable - "+u, nil)
+			}
 		}
 		b, inB := builtin[ek]
 		l, inL := loaded[ek]
